@@ -788,7 +788,7 @@ def e2e_plan(ctx):
     """list of (program params, [(mode, opt, optset, live)])"""
     rng = ctx.rng
     plan = []
-    nprog = ctx.n(10, 60)
+    nprog = ctx.n(8, 60)
     per = ctx.n(10, 24)
     osets = [o for o in option_sets(ctx.scratch) if not o.startswith("args-") and not o.startswith("max-stack-")
              and o not in ("finish", "script-fp", "recover-rec")]
@@ -996,7 +996,7 @@ def run(ctx):
 
     # ---- (a) shadow-stack trees
     scases = []
-    n = ctx.n(200, 3000)
+    n = ctx.n(160, 3000)
     groups = {}
     for i in range(n):
         shape = SHAPES[i % len(SHAPES)]
